@@ -37,10 +37,10 @@ META.update({
     text="Decides C15's mechanism completely at the level of shape: on every path through the scan loop this caption's offenders are ADDED to the accumulator and nothing replaces earlier entries; the scan runs after the final flush and walks the collection get_all() returns from; the measured text is the whole joined caption split at line breaks with limit 32; a non-empty message raises CaptionLineLengthError before any return and every start time contributes. The line lengths themselves come from the decoder (C05/C16) and are not decided.",
     note="Trusted: Caption.get_text_nodes' shape (checked), defaultdict(list) semantics."),
  "C16": dict(technique="pairing/ordering path rules over the buffer handlers (store-before-discard, discard-after-store), must-call ordering",
-    text="Thin claim, pairing and ordering only: in every handler that replaces the active buffer (mode-switch flush, roll-up, RDC/RUx/EOC branches) each path stores the buffer exactly once before discarding it and discards it after storing it (no loss, no duplicate emission), the erase command excepted; read() flushes after the last line and before collecting; the flush observer is registered before the first activation and sees the old key; _roll_up stores at the old time, then takes the new time, then force-ends the previous captions; emptiness looks at every node; every trailing open caption gets an end; the duplicate filter drops exactly the second copy of a doubled code and never text (finite-state fold shared with C05). Character conservation as such is NOT decided.",
+    text="Thin claim, pairing and ordering only: in every handler that replaces the active buffer (mode-switch flush, roll-up, RDC/RUx/EOC branches) each path stores the buffer exactly once before discarding it and discards it after storing it (no loss, no duplicate emission), the erase command excepted; read() flushes after the last line and before collecting; the flush observer is registered before the first activation and sees the old key; _roll_up stores at the old time, then takes the new time, then force-ends the previous captions; is_empty() is folded on the buffer object for every command sequence up to length 3 (empty exactly when no character was written); every trailing open caption gets an end; the duplicate filter drops exactly the second copy of a doubled code and never text (finite-state fold shared with C05). Character conservation as such is NOT decided.",
     note="Trusted: loops summarised as zero-or-one iteration (exact for these per-statement obligations)."),
  "C17": dict(technique="table rules (parity, inverse, CEA-608 reference), symbolic fold of the timecode formatter, mod-5 length automaton of the word assembler",
-    text="Decides: every byte the writer can emit (character tables, PAC bytes, literal command words, filler, fallback) has odd parity; writer PAC bytes address (row,0) by the reader's map and the CEA-608 reference; CHARACTER_TO_CODE inverts CHARACTERS; every line passes textwrap.fill(.,32); the hh:mm:ss:ff formatter equals the reference on 2 880 boundary timecodes; pre-roll = payload words + the literal command words actually written, compared against the pre-rolled start; HEADER shared with detect; len(code)%5 abstract interpretation shows only whole 4-hex words are emitted. Not decided: timing slack, re-read equality.",
+    text="Decides: every byte the writer can emit (character tables, PAC bytes, literal command words, filler, fallback) has odd parity; writer PAC bytes address (row,0) by the reader's map and the CEA-608 reference; CHARACTER_TO_CODE inverts CHARACTERS; every line passes textwrap.fill(.,32); the hh:mm:ss:ff formatter equals the reference on 2 880 boundary timecodes; pre-roll = payload words + the literal command words actually written, compared against the pre-rolled start; HEADER shared with detect; the encoder (_text_to_code) is folded on every encodable character in both alignment states on one- and two-row captions: whole 4-hex words only, doubled address word per row on rows 16-k..15, and the words decode back to the text with the reader's tables. Not decided: timing slack, re-read equality.",
     note="Trusted: textwrap defaults (break at spaces, split long words)."),
  "C19": dict(technique="linear forms of the retiming assignments, boundary operator, merge-key and separator guards",
     text="Decides: new start/end are t*skew+offset (both), the keep-test reads the new start with `>= 0`, kept captions are appended in order with nodes untouched, the iterated list is not modified, and the result is stored back under the same language unconditionally (set_captions has no guard); merge_concurrent_captions compares (start,end) of consecutive captions as numbers (grouping in a mapping keyed by the times is reported: it merges non-adjacent captions); merge() inserts exactly one unconditional break between captions, appends all nodes in order and keeps the first caption's times. Not decided: maximality of runs, idempotence.",
